@@ -116,6 +116,33 @@ func (t *tr) hashes(i int, rnd *choice.Src) {
 			t.add(fmt.Sprintf("h%d.sum2.%d", hi, sz), h.SumHash())
 		}
 	}
+	// one long-lived hasher per algorithm, reused for messages of different lengths: a shorter
+	// message after a longer one, Reset in the middle of a block, writes that straddle block
+	// boundaries, SumHash followed by more writes, ComputeHash in between
+	reuse := func(label string, h hash.Hasher) {
+		for step := 0; step < 28; step++ {
+			switch rnd.Intn(6) {
+			case 0:
+				h.Reset()
+				t.addf(label+".reset", "%d", step)
+			case 1:
+				_, _ = h.Write(rnd.Bytes(sizes[rnd.Intn(len(sizes)-2)]))
+			case 2:
+				t.add(fmt.Sprintf("%s.sum.%d", label, step), h.SumHash())
+			case 3:
+				t.add(fmt.Sprintf("%s.compute.%d", label, step), h.ComputeHash(rnd.Bytes(rnd.Intn(300))))
+			default:
+				_, _ = h.Write(rnd.Bytes(1 + rnd.Intn(20)))
+			}
+		}
+		t.add(label+".final", h.SumHash())
+	}
+	for hi, mk := range hs {
+		reuse(fmt.Sprintf("h%d.reuse", hi), mk())
+	}
+	if k, err := hash.NewKMAC_128(rnd.Bytes(20), rnd.Bytes(5), 32+rnd.Intn(200)); err == nil {
+		reuse("kmac.reuse", k)
+	}
 	for _, osz := range []int{1, 16, 32, 128, 167, 168, 169, 500} {
 		key := rnd.Bytes(16 + rnd.Intn(40))
 		cust := rnd.Bytes(rnd.Intn(30))
